@@ -29,6 +29,8 @@ type vfProfile struct {
 	UpdatePct  int
 	NoWWU      bool
 	CensusEvery int // census comparison after every n-th top-level step (0 = never)
+	Typed      bool // C15: each key has a value type, value operations are type-consistent
+	ShowPct    int  // share of lock steps that are show-queries (observe the value)
 }
 
 var vfTimes = []uint16{0, 1, 1, 2, 2, 3, 3, 4, 5, 7, 8, 9, 10}
@@ -43,6 +45,7 @@ type vfGen struct {
 	big  bool
 	sh   *vfShadow
 	countPool []uint16
+	keyType   map[vfKeyId]int
 }
 
 func vfNewGen(rng *vfRand, p *vfProfile, sh *vfShadow) *vfGen {
@@ -196,9 +199,92 @@ func (g *vfGen) lockOp() vfOp {
 		op.Flag &^= protocol.LOCK_FLAG_UPDATE_WHEN_LOCKED
 	}
 	if r.Chance(g.p.DataPct) {
-		op.Data = g.dataOp()
+		op.Data = g.dataOpFor(op.Db, op.Key)
+	}
+	if g.p.ShowPct > 0 && r.Chance(g.p.ShowPct) {
+		// pure observation: show-when-locked without update never changes anything
+		op.Flag = protocol.LOCK_FLAG_SHOW_WHEN_LOCKED
+		op.Data = nil
+		op.Timeout = 0
+		op.TFlag = 0
 	}
 	return op
+}
+
+func (g *vfGen) dataOpFor(db uint8, key int) *vfDataOp {
+	if !g.p.Typed {
+		return g.dataOp()
+	}
+	if g.keyType == nil {
+		g.keyType = map[vfKeyId]int{}
+	}
+	kid := vfKeyId{db, key}
+	t, ok := g.keyType[kid]
+	if !ok {
+		t = g.rng.Intn(3)
+		g.keyType[kid] = t
+	}
+	return g.typedOp(t, 0)
+}
+
+// typedOp draws a value operation for a key of value type t (bytes / number /
+// array); sequences stay type-consistent as the property's quantifier lists.
+func (g *vfGen) typedOp(t int, depth int) *vfDataOp {
+	r := g.rng
+	var prop []byte
+	if r.Chance(25) {
+		prop = r.Bytes(r.Range(0, 9))
+		if prop == nil {
+			prop = []byte{}
+		}
+	}
+	if depth == 0 && r.Chance(12) {
+		n := r.Range(1, 3)
+		d := &vfDataOp{Type: protocol.LOCK_DATA_COMMAND_TYPE_PIPELINE}
+		for i := 0; i < n; i++ {
+			d.Pipe = append(d.Pipe, g.typedOp(t, 1))
+		}
+		return d
+	}
+	if r.Chance(8) {
+		return &vfDataOp{Type: protocol.LOCK_DATA_COMMAND_TYPE_UNSET}
+	}
+	switch t {
+	case vfValBytes:
+		switch r.Intn(4) {
+		case 0:
+			return &vfDataOp{Type: protocol.LOCK_DATA_COMMAND_TYPE_SET, Val: r.Bytes(r.Range(0, 24)), Prop: prop}
+		case 1, 2:
+			return &vfDataOp{Type: protocol.LOCK_DATA_COMMAND_TYPE_APPEND, Val: r.Bytes(r.Range(0, 12)), Prop: prop}
+		default:
+			return &vfDataOp{Type: protocol.LOCK_DATA_COMMAND_TYPE_SHIFT, Num: int64(r.Intn(20))}
+		}
+	case vfValNumber:
+		n := int64(r.Range(-5, 9))
+		switch r.Intn(8) {
+		case 0:
+			n = int64(r.U64())
+		case 1:
+			n = 0x7fffffffffffffff
+		case 2:
+			n = -0x8000000000000000
+		}
+		return &vfDataOp{Type: protocol.LOCK_DATA_COMMAND_TYPE_INCR, Num: n, Prop: prop}
+	default:
+		switch r.Intn(4) {
+		case 0:
+			n := r.Range(0, 4)
+			arr := [][]byte{}
+			for i := 0; i < n; i++ {
+				arr = append(arr, r.Bytes(r.Range(1, 8)))
+			}
+			return &vfDataOp{Type: protocol.LOCK_DATA_COMMAND_TYPE_SET, Array: arr}
+		case 1, 2:
+			return &vfDataOp{Type: protocol.LOCK_DATA_COMMAND_TYPE_PUSH, Val: r.Bytes(r.Range(1, 10)), Prop: prop}
+		default:
+			return &vfDataOp{Type: protocol.LOCK_DATA_COMMAND_TYPE_POP, Num: int64(r.Intn(5))}
+		}
+	}
 }
 
 func (g *vfGen) dataOp() *vfDataOp {
@@ -251,7 +337,7 @@ func (g *vfGen) unlockOp() vfOp {
 		op.TFlag |= protocol.TIMEOUT_FLAG_RCOUNT_IS_PRIORITY
 	}
 	if r.Chance(g.p.DataPct / 2) {
-		op.Data = g.dataOp()
+		op.Data = g.dataOpFor(op.Db, op.Key)
 	}
 	return op
 }
